@@ -1257,8 +1257,11 @@ fn run_once(cfg: &SyncCfg, ha: &[WOp], hb: &[WOp], limit: usize) -> Result<Once,
 const SYNC_MAX_ATTEMPTS: usize = 3000;
 static EXTRA_ROUNDS: std::sync::atomic::AtomicUsize = std::sync::atomic::AtomicUsize::new(0);
 const SYNC_MIN_ATTEMPTS: usize = 4;
+const SAT_MIN: usize = 48;
+const SAT_QUIET: usize = 24;
 
 struct ScenResult {
+    by_saturation: bool,
     debug: String,
     attempts: usize,
     covered: bool,
@@ -1284,6 +1287,7 @@ fn run_scenario(cfg: &SyncCfg, ha: &[WOp], hb: &[WOp], limit: usize) -> ScenResu
     let mut nontrivial = false;
     let mut want_init = 1usize;
     let mut covered = false;
+    let (mut equal_runs, mut last_new_combo_at, mut any_truncating, mut by_saturation) = (0usize, 0usize, false, false);
     while attempts < SYNC_MAX_ATTEMPTS {
         attempts += 1;
         let once = match catch_unwind(AssertUnwindSafe(|| run_once(cfg, ha, hb, limit))) {
@@ -1327,7 +1331,13 @@ fn run_scenario(cfg: &SyncCfg, ha: &[WOp], hb: &[WOp], limit: usize) -> ScenResu
             k.sort();
             let w = orders_possible(&k, cfg.depth);
             let e = fin_seen.entry((k.clone(), k)).or_insert((w * w, BTreeSet::new()));
-            e.1.insert(once.fin.clone());
+            equal_runs += 1;
+            if e.1.insert(once.fin.clone()) {
+                last_new_combo_at = equal_runs;
+            }
+            if truncating {
+                any_truncating = true;
+            }
         }
         *rounds_hist.entry(once.rounds.map(|r| r.to_string()).unwrap_or("never".into())).or_default() += 1;
         let mut sigs: Vec<String> = once.causes.iter().map(|c| c.0.clone()).collect();
@@ -1337,8 +1347,14 @@ fn run_scenario(cfg: &SyncCfg, ha: &[WOp], hb: &[WOp], limit: usize) -> ScenResu
         for (s, d) in once.causes {
             causes.entry(s).or_insert(d);
         }
-        if attempts >= SYNC_MIN_ATTEMPTS && init_seen.len() >= want_init && fin_seen.values().all(|(w, s)| s.len() >= *w) {
+        // final orders: exact coverage; when the limit truncates, which side ends up with which order is
+        // correlated with the selection (not every combination is reachable): then the set of
+        // combinations must have been saturated (>= SAT_MIN equal-state runs, none new in the last SAT_QUIET)
+        let fin_exact = fin_seen.values().all(|(w, s)| s.len() >= *w);
+        let fin_saturated = any_truncating && equal_runs >= SAT_MIN && equal_runs - last_new_combo_at >= SAT_QUIET;
+        if attempts >= SYNC_MIN_ATTEMPTS && init_seen.len() >= want_init && (fin_exact || fin_saturated) {
             covered = true;
+            by_saturation = !fin_exact;
             break;
         }
     }
@@ -1354,6 +1370,7 @@ fn run_scenario(cfg: &SyncCfg, ha: &[WOp], hb: &[WOp], limit: usize) -> ScenResu
         )
     };
     ScenResult {
+        by_saturation,
         debug,
         attempts,
         covered,
@@ -1736,6 +1753,7 @@ fn main() {
     let mut sync_nontrivial = 0u64;
     let mut uncovered = 0u64;
     let mut order_dependent = 0u64;
+    let mut saturated = 0u64;
     let mut max_attempts = 0usize;
     let mut rounds_hist: BTreeMap<String, u64> = BTreeMap::new();
     let mut per_cfg: BTreeMap<String, BTreeMap<String, u64>> = BTreeMap::new();
@@ -1755,6 +1773,9 @@ fn main() {
         }
         if r.order_dependent {
             order_dependent += 1;
+        }
+        if r.by_saturation {
+            saturated += 1;
         }
         max_attempts = max_attempts.max(r.attempts);
         for (k, v) in &r.rounds_hist {
@@ -1819,7 +1840,8 @@ fn main() {
         "sync": {
             "histories": hist_notes, "scenarios": scens.len(), "scenarios_with_divergent_initial_digests": sync_nontrivial,
             "runs_on_fresh_nodes": sync_runs, "max_repetitions_of_one_scenario": max_attempts, "repetition_bound": SYNC_MAX_ATTEMPTS,
-            "scenarios_not_covering_all_order_combinations": uncovered, "scenarios_whose_outcome_depends_on_iteration_order": order_dependent,
+            "scenarios_not_covering_all_order_combinations": uncovered,
+            "scenarios_whose_final_order_combinations_were_closed_by_saturation": saturated, "scenarios_whose_outcome_depends_on_iteration_order": order_dependent,
             "rounds_until_digests_agree_histogram": rounds_hist, "outcomes_per_config": per_cfg, "wall_s": t_sync,
         },
     });
